@@ -545,6 +545,10 @@ def pow_case(rng):
         k0 = rng.choice([i for i in range(n + 1) if i != zpos])
         lam[zpos] += 2 * lam[k0]
         lam[k0] = -lam[k0]
+    if kind in ('zero_entry', 'two_neg') and not (sum(1 for v in lam if v < 0) >= 2 or any(v == 0 for v in lam)):
+        # the modification did not leave the documented domain (or n < 2): keep the valid vector
+        lam = pos[:zpos] + [-tot] + pos[zpos:]
+        kind = 'valid'
     x = cl.Variable(shape=(n + 1,), name='pwc')
     cells = []
     for i in range(n + 1):
@@ -570,7 +574,7 @@ def pow_case(rng):
             (blk,) = con.conic_form()
     except ValueError:
         # outside the documented domain (a zero entry, two negative entries) numpy broadcasting decides what happens: not compared
-        outside = kind in ('zero_entry', 'two_neg') and n >= 2
+        outside = kind in ('zero_entry', 'two_neg')
         return js, cq((0, wdesc, lam)), cq((Nat(1 if outside else 0), ([], [], [])))
     except Exception as e:
         js['error'] = type(e).__name__
@@ -585,7 +589,7 @@ def pow_case(rng):
         out_rows.append(([(i, qe(v)) for i, v in sorted(r.items()) if v != 0], qe(bv)))
     Kd = [(Raw({'pow': 'TPow'}.get(co.type, TAG.get(co.type, 'T0'))), Nat(int(co.len))) for co in K]
     wts = [Fraction(float(v)) for v in np.asarray(K[0].annotations['weights'], dtype=float).ravel().tolist()]
-    code = 2 if kind in ('valid',) or (kind in ('zero_entry', 'two_neg') and n < 2) else 1
+    code = 2 if kind == 'valid' else 1
     return js, cq((dummy, wdesc, lam)), cq((Nat(code), (Kd, out_rows, wts)))
 
 
